@@ -16,6 +16,7 @@ func (world) Level(p string) string { return "exploration" }
 func (world) Run(k *kernel.K)       { runSync(k) }
 func (world) Rule(p string) string {
 	base := "one run = 1-3 block servers (each a real dot/state BlockState behind the real SyncService.CreateBlockResponse, some Byzantine) holding a generated tree (fork-heavy <=40 blocks, or a 120-300 block chain that crosses the 128-block response limit) whose best block and finalised head move during the run, and one syncing node running the real FullSyncStrategy (announces, handshakes, NextActions, Process) over a real BlockState with the real blockImporter; requests and responses travel as bytes through the real protobuf encoders/decoders; the tape decides which server answers, lost and partial responses, duplicated and reordered results, and Byzantine mutations (forged stated hash, stated hash of another block, shuffled order, gaps, blocks of another fork, forged header under an honest hash, duplicated blocks). "
+	base += "Swarm knobs: a third of the runs let responses be well-formed chain pieces nobody asked for (any block with up to five ancestors) and add further answers to the same requests in one round; half of the runs attach justifications (accepted by the finality stub iff they are the simulator's marker for a main-chain block, so finality can move DURING Process; Byzantine servers forge them); a server's competing fork may grow and overtake its best chain between requests. "
 	if p == "C31" {
 		return base + "C31 oracle: every response served to the syncing node, to an honest planner and to Byzantine requesters (by number or hash, both directions, any max incl. none, any field mask, unknown hashes, repeats beyond the per-peer limit) is checked against the source's tree: gap-free hash-linked chain from the requested block in the requested direction, length <= min(max,128), exactly the requested fields, or an error; planned requests for a..b (around multiples of 128) cover the range exactly once in ascending order. Non-trivial = a served response with >= 2 blocks."
 	}
